@@ -11,6 +11,7 @@ import (
 
 	"github.com/smart-core-os/sc-api/go/traits"
 	"github.com/smart-core-os/sc-api/go/types"
+	"github.com/smart-core-os/sc-golang/pkg/masks"
 	"github.com/smart-core-os/sc-golang/pkg/resource"
 )
 
@@ -44,7 +45,7 @@ func (m *ModelServer) ListConsumables(_ context.Context, request *traits.ListCon
 	lastKey := pageToken.GetLastResourceName() // the key() of the last item we sent
 	pageSize := capPageSize(int(request.GetPageSize()))
 
-	sortedItems := m.model.ListConsumables(resource.WithReadMask(request.ReadMask))
+	sortedItems := m.model.ListConsumables()
 	nextIndex := 0
 	if lastKey != "" {
 		nextIndex = sort.Search(len(sortedItems), func(i int) bool {
@@ -70,7 +71,11 @@ func (m *ModelServer) ListConsumables(_ context.Context, request *traits.ListCon
 	if err != nil {
 		return nil, err
 	}
-	result.Consumables = sortedItems[nextIndex:upperBound]
+	// the read mask is applied to the page, not before paging: the token is built from the items' keys
+	filter := masks.NewResponseFilter(masks.WithFieldMask(request.ReadMask))
+	for _, item := range sortedItems[nextIndex:upperBound] {
+		result.Consumables = append(result.Consumables, filter.FilterClone(item).(*traits.Consumable))
+	}
 	return result, nil
 }
 
@@ -125,7 +130,7 @@ func (m *ModelServer) ListInventory(_ context.Context, request *traits.ListInven
 	lastKey := pageToken.GetLastResourceName() // the key() of the last item we sent
 	pageSize := capPageSize(int(request.GetPageSize()))
 
-	sortedItems := m.model.ListInventory(resource.WithReadMask(request.ReadMask))
+	sortedItems := m.model.ListInventory()
 	nextIndex := 0
 	if lastKey != "" {
 		nextIndex = sort.Search(len(sortedItems), func(i int) bool {
@@ -151,7 +156,11 @@ func (m *ModelServer) ListInventory(_ context.Context, request *traits.ListInven
 	if err != nil {
 		return nil, err
 	}
-	result.Inventory = sortedItems[nextIndex:upperBound]
+	// the read mask is applied to the page, not before paging: the token is built from the items' keys
+	filter := masks.NewResponseFilter(masks.WithFieldMask(request.ReadMask))
+	for _, item := range sortedItems[nextIndex:upperBound] {
+		result.Inventory = append(result.Inventory, filter.FilterClone(item).(*traits.Consumable_Stock))
+	}
 	return result, nil
 }
 
